@@ -397,5 +397,36 @@ pub fn gen(seed: u64, count: usize, thorough: bool) -> String {
         }
         writeln!(out, "end").unwrap();
     }
+    // Big bursts (their own random stream, so the cases above are unchanged): 33..80 sends inside one handler over
+    // an unlimited-bitrate (or zero-transmission-time) channel without jitter, the next wake-up scheduled *before*
+    // the sends (`e`) and due later or earlier than the deliveries — the handler's emission buffer then holds more
+    // than 32 same-instant exit events behind an event with another timestamp. Offer order must survive.
+    let mut r = Rng::new(seed ^ 0x5eed_b16b_0057);
+    for k in 0..(count / 24).max(2) {
+        let bitrate: u64 = if r.chance(3, 4) { 0 } else { 2_000_000_000_000 };
+        let lat = *r.pick(&LATS);
+        let drop = if r.chance(1, 4) { "drop" } else { "qinf" };
+        let sd = r.below(1000);
+        let tmpl = if sd % 3 == 0 { " tmpl=1" } else { "" };
+        writeln!(out, "case b{k} bitrate={bitrate} lat={lat} jit=0 drop={drop} seed={sd}{tmpl}").unwrap();
+        let mut tag = 0u64;
+        for i in 0..r.range(1, 3) {
+            let gap = match r.below(4) {
+                0 => lat + 1 + r.below(5),
+                1 => lat.saturating_sub(1),
+                2 => lat,
+                _ => r.below(4),
+            };
+            let flag = if i == 0 && r.chance(1, 4) { 's' } else if r.chance(3, 4) { 'e' } else { 'l' };
+            let gap = if flag == 's' { 0 } else { gap };
+            write!(out, "h {gap} {flag}").unwrap();
+            for _ in 0..r.range(33, 80) {
+                tag += 1;
+                write!(out, " {tag}:0").unwrap();
+            }
+            writeln!(out).unwrap();
+        }
+        writeln!(out, "end").unwrap();
+    }
     out
 }
